@@ -37,6 +37,11 @@ def gen_cases(tier, seed):
             cfgd["rho"] = float(10.0 ** rng.uniform(-4, 0))
         if rng.random() < 0.25:
             cfgd.update(C.rare_params(rng, allow_unvalidated=False))
+        if cfgd.get("control") == "Fixed" and k % 2 == 0:
+            # a fixed step size below the floor of the adaptive controllers (the fixed controller does not clamp)
+            rf = rng_for("C09fixed", seed, k)
+            cfgd["lamb_init"] = float(10.0 ** rf.uniform(-3, -1))
+            cfgd["lamb_min"] = cfgd["lamb_init"] * float(10.0 ** rf.uniform(0.5, 2.0))
         gopts = {}
         if fam == "DEG" and rng.random() < 0.5:
             gopts = {"variant": int(rng.choice([2, 3]))}  # all-fixed / unconstrained: empty reduced systems, no bound columns
